@@ -8,9 +8,14 @@
   directly on the implementation, without the Coq model.
 
 Stepwise simulation (DESIGN 1.3): before EVERY step the real receiver is re-abstracted; the Coq side
-(IIndex/Check.v: chk06 / chk07 / chk15 / chk15eq) compares `step (abs before) op` with the abstracted
-real outcome at the property level.  Nothing here imports catii at module level: the caller passes the
-snapshot's modules in `Impl`.
+(IIndex/Check.v: chk06 / chk07 / chk15 / chk15eq, and chk07load / chk07from for indexes that come back from a
+real INDX file or out of from_array) compares `step (abs before) op` with the abstracted real outcome at the
+property level.  Nothing here imports catii at module level: the caller passes the snapshot's modules in `Impl`.
+
+Layout: abstraction + direct oracles (spec_of, densify, snap, py_wf) | Gallina literals | generators (gen_init,
+gen_op) | run_step (one real operation + the NumPy oracle) | eq_probe (C15 twins) | run_history | replay |
+shrinkers (shrink_history: drop steps; shrink_one_step: drop rows) | C07 streams (indx_roundtrip,
+from_array_case) | run_check / replay_check (shared by props/c06.py, c07.py, c15.py).
 """
 import itertools
 
